@@ -1,8 +1,8 @@
 SPECIFICATION Spec
 CONSTANTS
   Fams = {"strings"}
-  NameAlpha = {34, 92, 123, 125, 91, 93, 9, 32, 97, 110, 47, 39, 35}
-  ValAlpha = {34, 92, 123, 125, 91, 93, 9, 32, 97, 110, 47, 39, 35, 10, 13}
+  NameAlpha = {34, 92, 123, 125, 91, 93, 9, 32, 97, 110, 47, 39, 35, 133}
+  ValAlpha = {34, 92, 123, 125, 91, 93, 9, 32, 97, 110, 47, 39, 35, 10, 13, 133}
   RichLen = 2
   PairNameAlpha = {34, 92, 9, 110}
   PairValAlpha = {34, 92, 10, 110}
